@@ -487,7 +487,9 @@ def bounded(tier, seed):
     budget = 2500 if tier == "quick" else 60000
     # directed: r0 and r2 share a key, r1 differs only in an ignorable parameter; ignoring it after the first request
     # makes all three share a key (re-index)
-    histories = [(((0, True), (2, True), (0, True)), (3, 0, 0), 0, 1)]
+    histories = [(((0, True), (2, True), (0, True)), (3, 0, 0), 0, 1),
+                 # r0 served first; after ignoring x as well, the response-less r2 is flattened in front of the earlier r1
+                 (((2, True), (1, True), (2, False)), (0, 2), 1, 2)]
     vi = list(range(len(variants)))
     while len(histories) < budget:
         recs = [(rnd.choice(vi[:4] if rnd.random() < 0.6 else vi), rnd.random() < 0.8) for _ in range(rnd.randint(1, nrec))]
@@ -572,7 +574,9 @@ def bounded(tier, seed):
                             drop = list(cands)
                         unserved = [i for i in unserved if i not in drop]
                     if sp.count() != len(unserved):
-                        b.fail("replay.count", inp, f"after request {n}: count {sp.count()} != {len(unserved)}")
+                        # after a re-index the flattened order can put a later response-less recording in front of an earlier
+                        # one: it is then discarded together with the served one (consequence of KF-C52-1)
+                        b.fail("replay.count_after_option_change[KF-C52-1]" if changed else "replay.count", inp, f"after request {n}: count {sp.count()} != {len(unserved)}")
                         unserved = unserved[: sp.count()]
                 b.case((recs, reqs, s1, s2), nontrivial=answered)
 
